@@ -74,6 +74,29 @@ pub use key::*;
 
 pub mod tests;
 
+/// Verification hook (guard: `--cfg poulpy_verif`): read-only access to the statically
+/// compiled u32 decision-diagram circuits, which are `pub(crate)` otherwise.
+#[cfg(poulpy_verif)]
+pub mod verif {
+    use super::{GetBitCircuitInfo, circuits::u32 as c};
+
+    pub fn u32_circuits() -> Vec<(&'static str, &'static dyn GetBitCircuitInfo)> {
+        vec![
+            ("add", &c::add_codegen::OUTPUT_CIRCUITS),
+            ("sub", &c::sub_codegen::OUTPUT_CIRCUITS),
+            ("sll", &c::sll_codegen::OUTPUT_CIRCUITS),
+            ("srl", &c::srl_codegen::OUTPUT_CIRCUITS),
+            ("sra", &c::sra_codegen::OUTPUT_CIRCUITS),
+            ("slt", &c::slt_codegen::OUTPUT_CIRCUITS),
+            ("sltu", &c::sltu_codegen::OUTPUT_CIRCUITS),
+            ("and", &c::and_codegen::OUTPUT_CIRCUITS),
+            ("or", &c::or_codegen::OUTPUT_CIRCUITS),
+            ("xor", &c::xor_codegen::OUTPUT_CIRCUITS),
+            ("identity", &c::identity_codgen::OUTPUT_CIRCUITS),
+        ]
+    }
+}
+
 /// Marker trait for unsigned integer types whose bits can be encrypted by [`FheUint`].
 ///
 /// Implemented for `u8`, `u16`, `u32`, `u64`, and `u128`.  The associated
